@@ -150,8 +150,7 @@ def make_section(spec):
 def gen_analyze(rng):
     chord = rng.choice([0.3, 1.0, 1.0, 25.0, 100.0])
     spec = {"chord": chord, "camber": rng.choice([0.0, 0.02, 0.05, 0.08]), "tmax": rng.choice([0.04, 0.08, 0.12, 0.2]), "xt": rng.choice([0.25, 0.3, 0.4, 0.5, 0.6]),
-            # the end radius varies continuously: where the station march stops short of an edge (its phase) follows from it
-            "r_end": rng.choice([0.005, 0.01, 0.03]) * rng.uniform(0.8, 1.25), "n": rng.choice([150, 300, 600]), "ccw": rng.random() < 0.5, "roll": rng.randrange(600),
+            "r_end": rng.choice([0.005, 0.01, 0.03]), "n": rng.choice([150, 300, 600]), "ccw": rng.random() < 0.5, "roll": rng.randrange(600),
             "pose": [rng.choice([0.0, rng.uniform(-3, 3)]), rng.choice([0.0, rng.uniform(-5, 5) * chord]), rng.choice([0.0, rng.uniform(-5, 5) * chord])]}
     if spec["r_end"] * 2 >= spec["tmax"] * 0.8:
         spec["r_end"] = spec["tmax"] * 0.1
@@ -596,7 +595,9 @@ def oracle(c, r):
                     continue
                 if (r[nm] is None) != (rv[nm] is None):
                     yield ("reverse-invariant", what + ": %s edge present in one vertex order only" % nm)
-                elif r[nm] is not None and math.dist(r[nm]["p"], rv[nm]["p"]) > 5 * tol:
+                # the open-gap point is extrapolated from the last stations (each good to the tolerance) over several times their
+                # spacing: 20 tolerances there, 5 elsewhere
+                elif r[nm] is not None and math.dist(r[nm]["p"], rv[nm]["p"]) > (20 if c["leading" if nm == "le" else "trailing"] == "open_gap" else 5) * tol:
                     yield ("reverse-invariant", what + ": %s edge point %r, with the vertex order reversed %r (%r apart, tolerance %r)" % (
                         "leading" if nm == "le" else "trailing", r[nm]["p"], rv[nm]["p"], math.dist(r[nm]["p"], rv[nm]["p"]), tol))
             if det["le"] and det["te"] and abs(r["camber_length"] - rv["camber_length"]) > 5 * tol:
